@@ -4,6 +4,8 @@
 // stdin, one case per line:   <own|chain> <int|diff|addr|lex> [steps] k1 k2 ... [? probe1 probe2 ...]
 //   int : integer keys, three-way comparator returning -1/0/1
 //   diff: integer keys, comparator returning the (non-unit) difference
+//   wide: 62-bit integer keys, comparator returning the difference as a long long (a total order whose
+//         results do not fit an int)
 //   addr: keys are indices of separately heap-allocated objects, compared by address
 //   lex : keys are comma-separated integer vectors compared by
 //         util::lexicographical_compare ("-" is the empty vector)
@@ -173,6 +175,87 @@ static void run_case(const Case& c, const std::vector<K>& keys, const std::vecto
    std::printf("\n");
 }
 
+// Bulk mode: long patterned runs validated here (one O(n) pass at the end) instead of through the printed shape.
+template<class Node, class Key>
+static bool bulk_valid(Node* n, Key key, long lo, long hi, int& black, int& height, std::string& why)
+{
+   if (n == nullptr) { black = 1; height = 0; return true; }
+   const long k = key(*n);
+   if (k <= lo or k >= hi) { why = "search order broken at " + std::to_string(k); return false; }
+   if (n->color == rb_tree::Color::Red)
+      for (auto c : { n->left(), n->right() })
+         if (c != nullptr and c->color == rb_tree::Color::Red) { why = "red node " + std::to_string(k) + " has a red child"; return false; }
+   for (auto c : { n->left(), n->right() })
+      if (c != nullptr and c->parent() != n) { why = "parent link of a child of " + std::to_string(k); return false; }
+   int bl = 0, br = 0, hl = 0, hr = 0;
+   // the search goes left when comp(data, key) < 0: greater keys are on the left
+   if (not bulk_valid(n->left(), key, k, hi, bl, hl, why) or not bulk_valid(n->right(), key, lo, k, br, hr, why)) return false;
+   if (bl != br) { why = "black count differs below " + std::to_string(k); return false; }
+   black = bl + (n->color == rb_tree::Color::Black ? 1 : 0);
+   height = 1 + std::max(hl, hr);
+   return true;
+}
+
+static void run_bulk(bool own, const std::string& pattern, long n)
+{
+   std::vector<long> keys;
+   for (long i = 0; i < n; ++i)
+      keys.push_back(2 * (pattern == "asc" ? i : pattern == "desc" ? n - 1 - i : pattern == "organ" ? ((i & 1) ? n - 1 - i / 2 : i / 2) : (i * 7919) % n));
+   auto cmp = [](long a, long b) { return sgn3(a, b); };
+   std::string why;
+   int black = 0, height = 0;
+   long size = 0, nodes = 0, missing = 0, ghosts = 0, wrong = 0;
+   bool ok = true;
+   if (own) {
+      OwnProbe<long> t;
+      std::vector<long*> got;
+      for (long k : keys) got.push_back(t.insert(k, cmp));
+      std::map<long, long*> first;
+      for (size_t i = 0; i < keys.size(); ++i) {
+         auto [it, fresh] = first.emplace(keys[i], got[i]);
+         if (it->second != got[i] or *got[i] != keys[i]) ++wrong;
+      }
+      for (size_t i = 0; i < keys.size(); ++i) {
+         long* p = t.find(keys[i], cmp);
+         if (p == nullptr) ++missing; else if (p != first[keys[i]]) ++wrong;
+         if (t.find(keys[i] + 1, cmp) != nullptr) ++ghosts;
+      }
+      if (t.find(-1L, cmp) != nullptr) ++ghosts;
+      size = t.size();
+      nodes = count_nodes(t.top());
+      if (t.top() != nullptr and (t.top()->color != rb_tree::Color::Black or t.top()->parent() != nullptr)) { ok = false; why = "root is red or has a parent"; }
+      ok = ok and bulk_valid(t.top(), [](const rb_tree::node<long>& x) { return x.data; }, -2, 2 * n + 2, black, height, why);
+      if (size != long(first.size()) or nodes != size) { ok = false; why = "size " + std::to_string(size) + ", nodes " + std::to_string(nodes) + ", distinct keys " + std::to_string(first.size()); }
+   }
+   else {
+      ChainProbe<long> t;
+      std::vector<std::unique_ptr<CNode<long>>> store;
+      auto ncmp = [&](const CNode<long>& a, const CNode<long>& b) { return cmp(a.key, b.key); };
+      auto kcmp = [&](const CNode<long>& a, const long& b) { return cmp(a.key, b); };
+      std::map<long, CNode<long>*> first;
+      for (size_t i = 0; i < keys.size(); ++i) {
+         store.push_back(std::make_unique<CNode<long>>());
+         store.back()->key = keys[i];
+         store.back()->serial = int(i);
+         auto p = t.insert(store.back().get(), ncmp);
+         first.emplace(keys[i], p);
+      }
+      for (size_t i = 0; i < keys.size(); ++i) {
+         auto p = t.find(keys[i], kcmp);
+         if (p == nullptr) ++missing; else if (p->key != keys[i]) ++wrong;
+         if (t.find(keys[i] + 1, kcmp) != nullptr) ++ghosts;
+      }
+      size = t.size();
+      nodes = count_nodes(t.top());
+      if (t.top() != nullptr and (t.top()->color != rb_tree::Color::Black or t.top()->parent() != nullptr)) { ok = false; why = "root is red or has a parent"; }
+      ok = ok and bulk_valid(t.top(), [](const CNode<long>& x) { return x.key; }, -2, 2 * n + 2, black, height, why);
+      if (nodes != long(first.size())) { ok = false; why = "nodes " + std::to_string(nodes) + ", distinct keys " + std::to_string(first.size()); }
+   }
+   if (missing or ghosts or wrong) { ok = false; why = std::to_string(missing) + " inserted keys not found, " + std::to_string(ghosts) + " keys never inserted found, " + std::to_string(wrong) + " wrong elements"; }
+   for (auto& ch : why) if (ch == ' ') ch = '_';
+   std::printf("bulk=%s why=%s n=%ld size=%ld nodes=%ld height=%d\n", ok ? "ok" : "BAD", why.empty() ? "-" : why.c_str(), n, size, nodes, height);
+}
+
 int main()
 {
    std::string line;
@@ -182,6 +265,13 @@ int main()
       Case c;
       std::string fl;
       ss >> fl >> c.cmp;
+      if (fl == "bulk") {                  // bulk <own|chain> <asc|desc|organ|zig> <n>
+         std::string pattern;
+         long n = 0;
+         ss >> pattern >> n;
+         run_bulk(c.cmp == "own", pattern, n);
+         continue;
+      }
       c.own = (fl == "own");
       std::string tok;
       bool probing = false;
@@ -190,7 +280,7 @@ int main()
          else if (tok == "?") probing = true;
          else (probing ? c.probes : c.keys).push_back(tok);
       }
-      if (c.cmp == "int" or c.cmp == "diff") {
+      if (c.cmp == "int" or c.cmp == "diff" or c.cmp == "wide") {
          std::vector<long> keys;
          for (auto& k : c.keys) keys.push_back(std::stol(k));
          std::vector<long> absent;
@@ -198,6 +288,8 @@ int main()
          auto show = [](long k) { return std::to_string(k); };
          if (c.cmp == "int")
             run_case<long>(c, keys, absent, [](long a, long b) { return sgn3(a, b); }, show, "");
+         else if (c.cmp == "wide")
+            run_case<long>(c, keys, absent, [](long a, long b) -> long long { return static_cast<long long>(a) - b; }, show, "");
          else
             run_case<long>(c, keys, absent, [](long a, long b) { return int(a - b); }, show, "");
       }
